@@ -94,8 +94,9 @@ def gen_program(rng: random.Random, profile: Dict[str, Any]) -> Dict[str, Any]:
             w = b.param([V, D])
             h = b.op("embedding_f", [ids, w], [B, S, D])
         else:
-            m = b.mod("nn.Embedding", [V, D])
-            h = b.op("nn_embedding", [ids], [B, S, D], mod=m)
+            ek = {"padding_idx": 0} if rng.random() < 0.3 else {}
+            m = b.mod("nn.Embedding", [V, D], dict(ek))
+            h = b.op("nn_embedding", [ids], [B, S, D], mod=m, **ek)
         if start == "embedding_sum":
             # token + position embeddings: a plain sum that later serves as a skip tensor
             pos = b.param([S, D])
@@ -199,13 +200,18 @@ def _step(b: Builder, h: str, profile, H: int, force_mapped: bool = False) -> st
     if choice in ("gelu", "silu", "tanh", "relu", "neg"):
         kw = {"approximate": "tanh"} if (choice == "gelu" and rng.random() < 0.3) else {}
         if choice == "gelu" and "nn_gelu" in forms and rng.random() < 0.3:
+            # non-default constructor options of the torch.nn wrappers travel with the module, not with the call
+            if rng.random() < 0.4:
+                m = b.mod("nn.GELU", [], {"approximate": "tanh"})
+                return b.op("nn_gelu", [h], [B, S, D], mod=m, approximate="tanh")
             m = b.mod("nn.GELU", [], {})
             return b.op("nn_gelu", [h], [B, S, D], mod=m)
         return b.op(choice, [h], [B, S, D], **kw)
     if choice == "softmax":
         if "nn_softmax" in forms and rng.random() < 0.3:
-            m = b.mod("nn.Softmax", [], {"dim": -1})
-            return b.op("nn_softmax", [h], [B, S, D], mod=m)
+            dim = rng.choice([-1, -1, 1, -2, 2])
+            m = b.mod("nn.Softmax", [], {"dim": dim})
+            return b.op("nn_softmax", [h], [B, S, D], mod=m, dim=dim)
         return b.op("softmax", [h], [B, S, D], dim=-1)
     if choice == "dropout":
         if rng.random() < 0.5:
@@ -213,8 +219,13 @@ def _step(b: Builder, h: str, profile, H: int, force_mapped: bool = False) -> st
         return b.op("dropout", [h], [B, S, D], p=rng.choice([0.1, 0.5]), training=False)
     if choice == "layer_norm":
         if rng.random() < 0.5:
-            m = b.mod("nn.LayerNorm", [D], {})
-            return b.op("nn_layer_norm", [h], [B, S, D], mod=m)
+            lk = {}
+            if rng.random() < 0.4:
+                lk["eps"] = rng.choice([1e-3, 1e-2])
+            if rng.random() < 0.25:
+                lk["elementwise_affine"] = False
+            m = b.mod("nn.LayerNorm", [D], dict(lk))
+            return b.op("nn_layer_norm", [h], [B, S, D], mod=m, normalized_shape=[D], **lk)
         g, bb = b.param([D], const=1.0), b.param([D], const=0.0)
         return b.op("layer_norm", [h, g, bb], [B, S, D], normalized_shape=[D])
     if choice == "matmul":
@@ -633,7 +644,7 @@ def interpret(prog: Dict[str, Any], params: Dict[str, Any], inputs: List[Any], s
         elif op == "neg":
             env[out] = -a[0]
         elif op in ("softmax", "nn_softmax"):
-            env[out] = U.softmax(a[0], dim=-1, **cons) if recipe else F.softmax(a[0], dim=-1)
+            env[out] = U.softmax(a[0], dim=kw.get("dim", -1), **cons) if recipe else F.softmax(a[0], dim=kw.get("dim", -1))
         elif op == "dropout":
             env[out] = U.dropout(a[0], kw["p"], kw["training"]) if recipe else F.dropout(a[0], kw["p"], kw["training"])
         elif op == "layer_norm":
@@ -641,14 +652,16 @@ def interpret(prog: Dict[str, Any], params: Dict[str, Any], inputs: List[Any], s
             env[out] = U.layer_norm(a[0], ns, a[1], a[2]) if recipe else F.layer_norm(a[0], ns, a[1], a[2])
         elif op == "nn_layer_norm":
             m = kw["mod"]
-            w_, b_ = params[f"{m}.weight"], params[f"{m}.bias"]
-            ns = tuple(w_.shape)
-            env[out] = U.layer_norm(a[0], ns, w_, b_, 1e-5) if recipe else F.layer_norm(a[0], ns, w_, b_, 1e-5)
+            w_, b_ = params.get(f"{m}.weight"), params.get(f"{m}.bias")
+            ns = tuple(kw["normalized_shape"]) if "normalized_shape" in kw else tuple(w_.shape)
+            eps_ = kw.get("eps", 1e-5)
+            env[out] = U.layer_norm(a[0], ns, w_, b_, eps_) if recipe else F.layer_norm(a[0], ns, w_, b_, eps_)
         elif op == "embedding_f":
             env[out] = U.embedding(a[0], a[1]) if recipe else F.embedding(a[0], a[1])
         elif op == "nn_embedding":
             w_ = params[f"{kw['mod']}.weight"]
-            env[out] = U.embedding(a[0], w_) if recipe else F.embedding(a[0], w_)
+            pk = {"padding_idx": kw["padding_idx"]} if "padding_idx" in kw else {}
+            env[out] = U.embedding(a[0], w_, **pk) if recipe else F.embedding(a[0], w_, **pk)
         elif op == "conv1d":
             env[out] = U.conv1d(a[0], a[1], None, 1, kw["padding"], **cons) if recipe else F.conv1d(a[0], a[1], None, 1, kw["padding"])
         elif op == "nn_conv1d":
